@@ -29,6 +29,8 @@ claimed = {
  "C25": ("4-12 concurrent FS requests with slow or aborting clients (tiny receive windows), CacheDuration 100 ms-1 s, SkipCache, CleanStop closed at a seeded time, the handler cleanup run as a simulator event; per-handle accounting in the substituted file layer: closed exactly once, never read after close, none open after quiescence", "6/C25"),
  "C36": ("net/http handler programs (WriteHeader incl. 1xx and repeated calls, Header().Set/Add/Del, Write, Flush, sleeps) and requests with repeated headers and bodies; the reference response comes from a real net/http server run on an in-memory pipe, the simulated side runs NewFastHTTPHandler with handler goroutine, serve goroutine and stream writer interleaved by the scheduler; ConvertRequest compared with net/http parse of the same bytes", "6/C36"),
  "C22": ("(a) CompressHandler, CompressHandlerLevel and CompressHandlerBrotliLevel with in-range and out-of-range levels over buffered and streamed bodies around the 200-byte threshold, Accept-Encoding lists with q-values, wildcards and unknown codings, pre-set Content-Encoding; client decodes with the standard decoders; (b) 1 to 2048 x GOMAXPROCS + 60 simultaneous Append*/Write* calls per codec with the stackless worker tasks starved by the scheduler so the work queue saturates deterministically; every output must decode to its input", "6/C22"),
+ "C07": ("server: bodies just below, at and above MaxRequestBodySize (1 B to 70 KB, 2 MiB in the thorough tier, default 4 MiB) fixed-length and chunked (tiny chunks, one chunk, mixed) with HeaderReceived overrides, heads around ReadBufferSize, compression bombs and many-part multipart bodies fed to the *WithLimit helpers; rejection status/close, handler never sees an oversize body, bytes taken from the simulated socket before rejection bounded by head + limit + buffers; client: MaxResponseBodySize against CL/chunked/close-delimited responses", "6/C07"),
+ "C08": ("Request/Response.ReadLimitBody, RequestHeader/ResponseHeader.Read over a bufio.Reader of size 16-4096 on a faulty reader (1-byte to unlimited chunks, (0,nil) reads, EOF/unexpected EOF/timeout/custom error at any offset) fed with the C01 grammar, generated responses and 0-5 byte-level mutations, always followed by a sentinel; value parsers run on accepted requests and on raw bytes; no panic, read budget (termination), sentinel intact (no over-read) against the RFC 9112 reference", "6/C08"),
  "C33": ("PipeConns stream equality and Close semantics, InmemoryListener Dial/Accept/Close pairing, under seeded interleavings of writers, readers, deadlines and closers at every channel/select/mutex operation", "6/C33"),
 }
 na = {
